@@ -267,7 +267,7 @@ let probes r dbg (c : cfg) sec : Z.t list =
       | _ -> ()) items
   with _ -> ());
   let l = List.rev !acc in
-  let l = if List.length l > 24 then List.filteri (fun i _ -> i < 24) l else l in
+  let l = if List.length l > 18 then List.filteri (fun i _ -> i < 18) l else l in
   l @ [boundary_z64 r; Z.of_int (rand_int r 0x10000)]
 
 (* ---- .eh_frame_hdr ---- *)
@@ -630,8 +630,14 @@ let () =
       let sec = bytes_of_ints bytes in
       let cs = Printf.sprintf "%s %s%s" (sec_case name c bytes) (b01 nopsflag) (String.concat "" (List.map (fun z -> " " ^ Z.to_string z) addrs)) in
       both emit cs (fun dbg -> look_model dbg c sec addrs) in
-    if not raw then grid_sections (fun c es ->
-      let sec = encode c es in case c (ints_of_bytes sec) true (probes r false c sec));
+    if not raw then begin
+      (* every other grid section (the full grid is decoded by c05.ent); all of them when n is large *)
+      let k = ref 0 in
+      grid_sections (fun c es ->
+        incr k;
+        if n >= 5000 || !k mod 2 = 0 then begin
+          let sec = encode c es in case c (ints_of_bytes sec) true (probes r false c sec) end)
+    end;
     for _ = 1 to n do
       let c = rand_cfg r ~eh:(rand_bool r) in
       let es = rand_entries r c in
